@@ -118,6 +118,16 @@ ValidLeaf(b, x) ==
             THEN ParentsKnown(b, x)
             ELSE FundsOK(b, x)
 
+\* Validation under a cancelled context.  The context is looked at once per ancestor that the graph walk yields, i.e.
+\* only when the validation gets as far as the accounting walk and there is an ancestor to visit; the interrupted
+\* validation is then reported like a failed one - and the callers DROP the tip (named deviation: a valid tentative
+\* tip is lost because the caller of a proposal or of a gossip delivery went away).
+ReachesWalk(b, x) ==
+    /\ ValidWeight(b, V(x).w) /\ V(x).ok /\ ~RootShortcut(b, x)
+    /\ IsSpice(T(x)) /\ V(x).sealer \notin b.trusted
+    /\ Anc(b, x) # {}
+ValidLeafC(b, x, cancelled) == IF cancelled /\ ReachesWalk(b, x) THEN FALSE ELSE ValidLeaf(b, x)
+
 Bump(b, w) == [b EXCEPT !.wgt = Max2(@, w), !.thr = @ + Cardinality(TipsOf(b)) + 1]
 
 RemoveVertex(b, x) ==
@@ -148,12 +158,16 @@ ProposeGuard(b, n, t) ==
 \* one pass of getValidLeaves over a snapshot `ord` of the tips.  `bad` is TRUE when the last tip
 \* examined was invalid: the function's named error result then still holds that validation error
 \* when the loop ends, and CreateLeaf returns it (after the deletions) instead of building a vertex.
-RECURSIVE Pass(_, _, _, _)
-Pass(b, ord, sel, bad) ==
-    IF ord = <<>> \/ Len(sel) = 2 THEN [b |-> b, sel |-> sel, bad |-> bad]
-    ELSE LET x == Head(ord) IN
-         IF ValidLeaf(b, x) THEN Pass(b, Tail(ord), Append(sel, x), FALSE)
-         ELSE Pass(DropTipBump(b, x), Tail(ord), sel, TRUE)
+\* k is the number of tips that are still examined before the caller's context is cancelled (NoCancel: never)
+NoCancel == 1000
+RECURSIVE PassC(_, _, _, _, _)
+PassC(b, ord, sel, bad, k) ==
+    IF ord = <<>> \/ Len(sel) = 2 THEN [b |-> b, sel |-> sel, bad |-> bad, k |-> k]
+    ELSE LET x == Head(ord)
+             k2 == IF k > 0 THEN k - 1 ELSE 0 IN
+         IF ValidLeafC(b, x, k = 0) THEN PassC(b, Tail(ord), Append(sel, x), FALSE, k2)
+         ELSE PassC(DropTipBump(b, x), Tail(ord), sel, TRUE, k2)
+Pass(b, ord, sel, bad) == PassC(b, ord, sel, bad, NoCancel)
 
 NewLeaf(n, t, sel) ==
     LET l == sel[1]
@@ -161,9 +175,9 @@ NewLeaf(n, t, sel) ==
     IN  [trx |-> t, sealer |-> n, l |-> l, r |-> r, w |-> Max2(V(l).w, V(r).w) + 1, ok |-> TRUE]
 
 \* the part of CreateLeaf executed under ab.mux; id is the identity the new vertex will get
-ProposeCommitOutcomes(b, n, t, id) ==
-    UNION {
-      LET p1 == Pass(b, ord, <<>>, FALSE) IN
+ProposeOutcomesC(b, n, t, id, K) ==
+    UNION { UNION {
+      LET p1 == PassC(b, ord, <<>>, FALSE, k) IN
       IF p1.bad THEN {[res |-> "tipinvalid", b |-> p1.b, new |-> <<>>]}
       ELSE IF p1.sel # <<>>
       THEN {IF p1.b.index[t.id] # NoV
@@ -174,7 +188,7 @@ ProposeCommitOutcomes(b, n, t, id) ==
                                      !.edges = @ \cup {<<nv.l, id>>, <<nv.r, id>>},
                                      !.index = [@ EXCEPT ![t.id] = id]]]}
       ELSE \* no tip in the first snapshot: the tips are looked at once more
-           UNION {LET p2 == Pass(p1.b, ord2, <<>>, FALSE) IN
+           UNION {LET p2 == PassC(p1.b, ord2, <<>>, FALSE, p1.k) IN
               IF p2.bad THEN {[res |-> "tipinvalid", b |-> p2.b, new |-> <<>>]}
               ELSE IF NoTipRule = "panic"
               THEN {[res |-> IF p2.sel # <<>> THEN "unexpected" ELSE "panic", b |-> p2.b, new |-> <<>>]}
@@ -186,7 +200,10 @@ ProposeCommitOutcomes(b, n, t, id) ==
                                         !.edges = @ \cup {<<nv.l, id>>, <<nv.r, id>>},
                                         !.index = [@ EXCEPT ![t.id] = id]]]}
             : ord2 \in SetToSeqs(TipsOf(p1.b))}
-      : ord \in SetToSeqs(TipsOf(b))}
+      : ord \in SetToSeqs(TipsOf(b))} : k \in K}
+ProposeCommitOutcomes(b, n, t, id) == ProposeOutcomesC(b, n, t, id, {NoCancel})
+\* the caller's context is cancelled before the k-th tip is examined, for some k
+ProposeCancelledOutcomes(b, n, t, id) == ProposeOutcomesC(b, n, t, id, 0..Cardinality(TipsOf(b)) \cup {NoCancel})
 
 ----------------------------------------------------------------------------
 (* AddLeaf / addLeafMemorized *)
@@ -213,22 +230,27 @@ Park(b, v, rep) ==
     ELSE [res |-> "parentmissing", b |-> [b EXCEPT !.parked = Append(@, [v |-> v, rep |-> rep + 1])]]
 
 \* examine one declared parent h of v; returns [res, b] with res = "go" to continue
-ExamineParent(b, v, rep, h) ==
+ExamineParentC(b, v, rep, h, cancelled) ==
     IF h \notin b.live THEN Park(b, v, rep)
     ELSE IF h \in TipsOf(b)
-         THEN IF ValidLeaf(b, h) THEN [res |-> "go", b |-> Bump(b, V(h).w)]
+         THEN IF ValidLeafC(b, h, cancelled) THEN [res |-> "go", b |-> Bump(b, V(h).w)]
               ELSE [res |-> "rejected", b |-> RemoveVertex(b, h)]
          ELSE [res |-> "go", b |-> b]
+ExamineParent(b, v, rep, h) == ExamineParentC(b, v, rep, h, FALSE)
 
-\* the part of addLeafMemorized executed under ab.mux (deterministic)
-DeliverCommitOutcome(b, v, rep) ==
-    LET e1 == ExamineParent(b, v, rep, V(v).l) IN
+\* the part of addLeafMemorized executed under ab.mux (deterministic); c1 / c2: the caller's context is cancelled
+\* by the time the left / right parent is validated
+DeliverOutcomeC(b, v, rep, c1, c2) ==
+    LET e1 == ExamineParentC(b, v, rep, V(v).l, c1) IN
     IF e1.res # "go" THEN e1
-    ELSE LET e2 == ExamineParent(e1.b, v, rep, V(v).r) IN
+    ELSE LET e2 == ExamineParentC(e1.b, v, rep, V(v).r, c2) IN
          IF e2.res # "go" THEN e2
          ELSE IF e2.b.index[T(v).id] # NoV THEN [res |-> "unexpected", b |-> e2.b]
          ELSE IF v \in e2.b.live THEN [res |-> "rejected", b |-> e2.b]
          ELSE [res |-> "ok", b |-> AddVertex(e2.b, v)]
+DeliverCommitOutcome(b, v, rep) == DeliverOutcomeC(b, v, rep, FALSE, FALSE)
+DeliverCancelledOutcomes(b, v, rep) ==
+    {DeliverOutcomeC(b, v, rep, c[1], c[2]) : c \in {<<FALSE, FALSE>>, <<FALSE, TRUE>>, <<TRUE, TRUE>>}}
 
 ----------------------------------------------------------------------------
 (* truncate *)
@@ -266,7 +288,13 @@ TruncateOutcomes(b) ==
     ELSE UNION {
            LET C == CutCandidates(b, tip, TruncDepth) IN
            IF C = {} THEN {[res |-> "ok", b |-> b]}     \* fewer ancestors than the depth: nothing to move
-           ELSE {[res |-> "ok", b |-> TruncateTo(b, c)] : c \in C}
+           ELSE UNION {
+                  LET M == Anc(b, c) IN
+                  IF M \cap b.stored = {} THEN {[res |-> "ok", b |-> TruncateTo(b, c)]}
+                  \* only after a cancelled truncation: a vertex below the cut is in the store already, copying it
+                  \* fails, and the truncation stops there - after every attempt for good
+                  ELSE {[res |-> "error", b |-> [b EXCEPT !.stored = @ \cup X]] : X \in SUBSET (M \ b.stored)}
+                : c \in C}
          : tip \in TipsOf(b)}
 
 \* A truncation whose context is cancelled at one of the inspections of the three walks (the context is the node's
